@@ -63,7 +63,7 @@ def stepLine (st : DriverState) (line : String) : DriverState × String :=
     ({ st with ft := s' }, out)
   | "pc" :: args =>
     (st, Precompile.step (Precompile.cfgOfFacts Generated.precompileRequiredGasLenCheck Generated.precompileIsMutation
-      Generated.precompileRunCases Generated.precompileRunDefersOOG Generated.precompileRawStringUses) args)
+      Generated.precompileRunCases Generated.precompileRunDefersOOG Generated.precompileRawStringUses Generated.getErc20AddressGuards) args)
   | "oracle" :: args => (st, Oracle.step args)
   | "interleave" :: args => (st, Concurrency.step args)
   | "infl" :: args =>
